@@ -38,7 +38,9 @@ def _sig(paths, names):
     for p in paths:
         if p.outcome != 'return' or p.ret is None:
             continue
-        eqs = [min(e.show(), (-e).show()) for e in p.eqs]
+        # decisions on predicates (isinf(x), isnan(x + y), ...) order the cases but are not part of the value
+        eqs = [min(e.show(), (-e).show()) for e in p.eqs
+               if not re.fullmatch(r'(-1 \+ )?-?(isinf|isnan|isfinite|signbit)\(.*\)', e.show())]
         v = p.ret.show()
         if any(e.subst('y', Poly.sym('x')).is_zero() and not e.is_zero() for e in p.eqs):
             for a in names:
